@@ -51,6 +51,11 @@ def endings():
     E.append(('stream-cancel-in-on_subscribe', dict(kind='stream', down=2, pub='gen', cancel_after=-1, ending='flag')))
     E.append(('channel-cancel-in-on_subscribe', dict(kind='channel', down=2, up=-1, pub='gen', cancel_after=-1, ending='flag')))
     E.append(('channel-raise', dict(kind='channel', down=1, up=1, pub='raise')))
+    # an application publisher that signals its terminal event from inside subscribe(), before any demand
+    for pub in ('subcomplete', 'suberror'):
+        E.append(('stream-%s' % pub, dict(kind='stream', down=0, pub=pub, ending='error' if pub == 'suberror' else 'complete')))
+        E.append(('channel-%s' % pub, dict(kind='channel', down=0, up=0, pub=pub, ending='error' if pub == 'suberror' else 'complete',
+                                           up_ending='error' if pub == 'suberror' else 'complete')))
     # an application publisher that emits synchronously from inside request(n)
     for ending in ('flag', 'complete'):
         E.append(('stream-sync-%s' % ending, dict(kind='stream', down=3, pub='sync', ending=ending, credit='one')))
